@@ -570,6 +570,33 @@ class ProofMachine(QueryMachine):
                                               'mp': []}]], loop)
             await asyncio.sleep(16)
             return
+        if op[0] == 'late_client':
+            # (C11 reuses this slot) ONE transaction-proof request in flight across TWO separate
+            # reorganisations of its block: the first tx-hash read is delivered after the first
+            # reorganisation was signalled, the re-read runs between the two and is delivered after
+            # the second
+            c = self.client(0)
+            if c is None:
+                return
+            await asyncio.sleep(7)
+            tip = self.server.db.state.height
+            if tip < 4 or tip != self.world.height or self.clamp_depth(2) < 2:
+                return
+            loop.slow_jobs.append(['fs_tx_hashes_at_blockheight', 1, 0.0, 8.0])
+            loop.slow_jobs.append(['fs_tx_hashes_at_blockheight', 1, 0.0, 8.0])
+            reorgs0 = self.server.session_mgr._reorg_count
+            self.send(c, 'blockchain.transaction.id_from_pos', [tip, 0, True],
+                      {'kind': 'query', 'method': 'blockchain.transaction.id_from_pos'})
+            await asyncio.sleep(0.01)
+            await super().apply(['fork', 1, [{'cb': [[1, 2]], 'nonce': 13, 'coll': None, 'txs': [],
+                                              'mp': []}]], loop)
+            await asyncio.sleep(8.5)
+            await super().apply(['fork', 2, [{'cb': [[2, 1]], 'nonce': 17, 'coll': None, 'txs': [],
+                                              'mp': []}]], loop)
+            await asyncio.sleep(10)
+            if self.server.session_mgr._reorg_count >= reorgs0 + 2:
+                self.info['classes'].add('tx_hash_read_in_flight_across_two_reorgs')
+            return
         await super().apply(op, loop)
 
     async def check_queries(self, model, mp):
